@@ -66,7 +66,45 @@ fn mixed_cost_audio(rng: &mut Rng, channels: usize, bps: usize, block: usize, fr
     Audio { channels, bps, rate: 44100, samples, recipe }
 }
 
+/// More than 2^16 frames (4-byte coded frame numbers; frame sizes of late frames decide the
+/// STREAMINFO extremes): 8-bit mono, 32-sample blocks, noise with an amplitude ramp.
+fn gen_c05_long(seed: u64, idx: u64) -> Scenario {
+    let mut rng = Rng::for_case(seed, "C05.long", idx);
+    let block = 32usize;
+    let frames = 65_537 + rng.usize_below(200);
+    let len = frames * block + if rng.flip() { rng.usize_below(block) } else { 0 };
+    let bps = *rng.pick(&[8usize, 16]);
+    let full = gen::smax(bps) as f64;
+    let up = idx % 2 == 0;
+    let samples: Vec<i32> = (0..len)
+        .map(|t| {
+            let pos = t as f64 / len as f64;
+            let env = if up { pos } else { 1.0 - pos };
+            (full * env * env * (rng.f64() * 2.0 - 1.0)) as i32
+        })
+        .collect();
+    let mut cfg = config::Encoder::default();
+    cfg.multithread = true;
+    cfg.subframe_coding.use_lpc = false;
+    cfg.block_size = block;
+    Scenario {
+        audio: Arc::new(Audio { channels: 1, bps, rate: 8000, samples, recipe: format!("ramp_{}_noise {frames} frames", if up { "up" } else { "down" }) }),
+        cfg,
+        block,
+        workers: Some(*rng.pick(&[2usize, 4, 8])),
+        env: None,
+        policy: Policy::None,
+        faults: vec![],
+        mode: if rng.flip() { FillMode::Int } else { FillMode::Bytes },
+        hint: rng.flip(),
+        label: format!("long#{idx}"),
+    }
+}
+
 pub fn gen_c05(seed: u64, sub: &str, idx: u64) -> Scenario {
+    if sub == "long" {
+        return gen_c05_long(seed, idx);
+    }
     let mut rng = Rng::for_case(seed, &format!("C05.{sub}"), idx);
     let bps = *rng.pick(&gen::WIDTHS);
     let channels = *rng.pick(&[1usize, 2, 2, 2, 3, 5, 8]);
@@ -443,11 +481,12 @@ pub fn run_c05(ctx: &Ctx) -> i32 {
     let agg = Arc::new(Mutex::new(ParAgg { out: Outcome::default() }));
     supervise_sub(ctx, "sched", ctx.tier.pick(1600, 120_000), &agg);
     supervise_sub(ctx, "env", ctx.tier.pick(104, 1300), &agg);
+    supervise_sub(ctx, "long", ctx.tier.pick(2, 32), &agg);
     let out = std::mem::take(&mut agg.lock().unwrap().out);
     let ooo = out.stats.get("runs_with_out_of_order_completion").copied().unwrap_or(0);
     let fin = Finish {
         level: "exploration",
-        rule: "every scenario (generated input with alternating cheap/expensive blocks x configuration x W in {1,2,3,4,8,16,32} or FLACENC_WORKERS in 13 strings x 8 schedule policies injected at the hook's scheduling points) runs in a supervised child, one multi-thread call at a time: bytes(single) == bytes(multi) == bytes(frame-by-frame assembly) == bytes(multi, repeated); the totally ordered event log is checked offline for T1 buffer ownership alternation, T2 frame numbers 0,1,2.. each encoded and pushed exactly once, T3 stop tokens, T4 hasher FIFO/no-loss, T5 all helpers exited before return; distinct = distinct interleavings (hash of the log projected to (role, site))",
+        rule: "every scenario (generated input with alternating cheap/expensive blocks x configuration x W in {1,2,3,4,8,16,32} or FLACENC_WORKERS in 13 strings x 8 schedule policies injected at the hook's scheduling points; plus 'long' scenarios of more than 65536 frames) runs in a supervised child, one multi-thread call at a time: bytes(single) == bytes(multi) == bytes(frame-by-frame assembly) == bytes(multi, repeated); the totally ordered event log is checked offline for T1 buffer ownership alternation, T2 frame numbers 0,1,2.. each encoded and pushed exactly once, T3 stop tokens, T4 hasher FIFO/no-loss, T5 all helpers exited before return; distinct = distinct interleavings (hash of the log projected to (role, site))",
         assumptions: vec!["schedules are sampled by real threads + injected delays at the library's own suspension points; not all interleavings are visited".into(), "deadlock is decided by /proc state (all tasks in futex wait, no CPU time or context switch for 2 s), never by a deadline".into()],
         exhaustive: None,
         floors: vec![("runs in which a frame completed before a lower-numbered one".into(), ooo, 10)],
